@@ -8,12 +8,26 @@ pub(crate) fn escape_html_body(s: &str) -> Cow<'_, str> {
     lazy_static! {
         static ref REGEX: Regex = Regex::new("[<\"&]").unwrap();
     }
-    REGEX.replace_all(s, |caps: &Captures| match &caps[0] {
+    let ret = REGEX.replace_all(s, |caps: &Captures| match &caps[0] {
         "<" => "&lt;".to_owned(),
         "\"" => "&quot;".to_owned(),
         "&" => "&amp;".to_owned(),
         _ => unreachable!(),
-    })
+    });
+    if !ret.contains("{{") {
+        return ret;
+    }
+    // `{{` would start a data binding when parsed again: escape every `{` that precedes a `{`
+    let mut escaped = String::with_capacity(ret.len() + 8);
+    let mut chars = ret.chars().peekable();
+    while let Some(c) = chars.next() {
+        if c == '{' && chars.peek() == Some(&'{') {
+            escaped.push_str("&#123;");
+        } else {
+            escaped.push(c);
+        }
+    }
+    Cow::Owned(escaped)
 }
 
 pub(crate) fn escape_html_quote(s: &str) -> Cow<'_, str> {
